@@ -5,8 +5,8 @@
 # usage: tools/eval_seed.sh <name> <property> [more checks to run ...]
 cd "$(dirname "$0")/.." || exit 2
 NAME=$1; PROP=$2; shift 1
-D=/tmp/seed_$NAME
-OUT=seeded/$NAME
+D=${SEED_PREFIX:-/tmp/seed_}$NAME
+OUT=seeded/${OUTNAME:-$NAME}
 mkdir -p "$OUT"
 git -C "$D" diff > "$OUT/patch.diff"
 cp "$D/demo.py" "$OUT/demo.py" 2>/dev/null
